@@ -69,7 +69,8 @@ def run(ctx):
             ('core', dict(signed=False, shorts=False), 500 if quick else 12000, ['-O0', '-O1']),
             ('full', dict(bait=True, bait_p=0.15), 250 if quick else 8000, ['-O0'] if quick else ['-O0', '-O1']),
             ('bait', dict(bait=True, inline=True, shorts='always', bait_p=0.4), 200 if quick else 5000, ['-O1'] if quick else ['-O0', '-O1']),
-            ('ptr', dict(pointers=True, signed=False, shorts=False, bait=True, bait_p=0.15), 200 if quick else 5000, ['-O1'] if quick else ['-O0', '-O1'])]:
+            ('ptr', dict(pointers=True, signed=False, shorts=False, bait=True, bait_p=0.15), 200 if quick else 5000, ['-O1'] if quick else ['-O0', '-O1']),
+            ('hw', dict(hw=True, signed=False, bait=True, bait_p=0.3), 150 if quick else 4000, ['-O1'] if quick else ['-O0', '-O1'])]:
         progs = {'%s%d' % (label, i): gen_program(rng, opts) for i in range(n)}
         nprog += len(progs)
         for O in levels:
